@@ -21,8 +21,9 @@ from .session import ModelState, make_scratch
 
 
 class ProgramRunner:
-    def __init__(self, prog):
+    def __init__(self, prog, watch_fs=False):
         self.prog = prog
+        self.watch_fs = watch_fs  # attribute write-class file-system events to the client call that made them
         self.info = catalog.info(prog["cls"])
         self.cls = self.info.cls()
         self.scratch = make_scratch()
@@ -66,11 +67,13 @@ class ProgramRunner:
         hist = []
         objs = self.objs
         opstart = self.opstart = {}
+        current = {}  # thread ident -> (thread index, op index) of the client call in progress
 
         def body(ti, steps):
             def run():
                 for si, st in enumerate(steps):
                     hist.append(("call", next(clock), ti, si))
+                    current[threading.get_ident()] = (ti, si)
                     opstart[(ti, si)] = sched.SCHED.nsteps[ti] if ti < len(sched.SCHED.nsteps) else 0
                     try:
                         node = objs[st["h"]]
@@ -88,6 +91,7 @@ class ProgramRunner:
                         out = model.Outcome("exc", exc=e)
                     if out.kind == "exc" and isinstance(out.exc, sched.SchedAbort):
                         raise out.exc
+                    current.pop(threading.get_ident(), None)
                     hist.append(("ret", next(clock), ti, si, out))
             return run
 
@@ -98,10 +102,17 @@ class ProgramRunner:
             cap = buffered.get("cap")
             cm = self.cls.buffer_backend(cap) if cap is not None else self.cls.buffer_backend()
             cm.__enter__()
+        if self.watch_fs:
+            from . import fsmon
+
+            fsmon.arm(self.scratch, tag_fn=lambda: current.get(threading.get_ident()))
         try:
             res = sched.SCHED.run([body(i, t) for i, t in enumerate(self.prog["threads"])], policy,
                                   watchdog_s=watchdog_s, record_sites=record_sites)
         finally:
+            if self.watch_fs:
+                extra["fs_by_op"] = fsmon.tagged()
+                fsmon.disarm()
             if cm is not None:
                 try:
                     cm.__exit__(None, None, None)
@@ -230,7 +241,7 @@ def describe_history(ops):
 
 # --------------------------------------------------------------------------- exploration
 def explore(prog, runner, rng, tier, sig_base, check_extra=None, budget_runs=None,
-            policies=("sweep",), per_file=False, deadline=None):
+            policies=("sweep",), per_file=False, deadline=None, verdict=None):
     """Run ``prog`` under many schedules and check every execution.
 
     Returns dict(runs, schedules(set of hashes), violations[list], mid_op_switch_runs,
@@ -271,6 +282,9 @@ def explore(prog, runner, rng, tier, sig_base, check_extra=None, budget_runs=Non
             v = ("deadlock", f"deadlock: threads {res['unfinished']} blocked on {res['blocked']}")
         elif res["leaked"]:
             v = ("leaked_lock", f"lock(s) still held by finished threads: {res['leaked']}")
+        elif verdict is not None:
+            # the caller decides on its own observations (the linearizability search is not run)
+            v = verdict(prog, res, ops, final, extra)
         else:
             ok, detail, tried = linearizable(prog, ops, final)
             out["orders_tried"] += tried
@@ -386,11 +400,11 @@ def runner_last_nsteps(runner):
         return None
 
 
-def replay_one(case):
+def replay_one(case, watch_fs=False, verdict=None):
     """Re-run one recorded (program, policy) pair; returns the violation list."""
     prog = case["prog"]
     pol = case["policy"]
-    runner = ProgramRunner(prog)
+    runner = ProgramRunner(prog, watch_fs=watch_fs)
     try:
         if pol["policy"] == "priority":
             policy = sched.PriorityPolicy(pol["order"], [tuple(c) for c in pol["change_points"]])
@@ -402,6 +416,9 @@ def replay_one(case):
             return [{"detail": f"deadlock: {res['blocked']}"}]
         if res["status"] != "ok":
             return []
+        if verdict is not None:
+            v = verdict(prog, res, ops, final, extra)
+            return [] if v is None else [{"detail": v[1] + "\n" + "\n".join(describe_history(ops))}]
         ok, detail, _ = linearizable(prog, ops, final)
         return [] if ok else [{"detail": detail + "\n" + "\n".join(describe_history(ops))}]
     finally:
